@@ -570,6 +570,16 @@ func (g *G) validShape(name string) (args []arg, ok bool) {
 		}
 		return out, true
 	case "within", "intersects":
+		if name == "intersects" && g.chance("mvtpath?", 1, 6) {
+			// the exact command an HTTP GET /key/z/x/y.mvt is rewritten to
+			z := g.intn("mz", 0, 7)
+			lim := []arg{kw("LIMIT"), {g.pick("mvtlimit", []string{"100000000", "1", "3"}), rNum}}
+			if g.chance("mvtsparse?", 1, 4) {
+				lim = []arg{kw("SPARSE"), num(g.intn("mvtsparse", 1, 4))}
+			}
+			out := append(a(g.key()), lim...)
+			return append(out, kw("MVT"), num(g.intn("mx", 0, 1<<z-1)), num(g.intn("my", 0, 1<<z-1)), num(z)), true
+		}
 		out := a(g.key())
 		out = append(out, g.searchOpts(name)...)
 		out = append(out, g.searchOutput()...)
